@@ -3,8 +3,8 @@ import json, re
 import vlib, gen, impl
 from props.c01 import VERSIONS, excluded
 
-MODULES = ['Hl7.Props.C08', 'Hl7.Props.C03Casc']
-THEOREMS = ['Hl7.Msg.C08_order', 'Hl7.Msg.C03_flat_keeps_all', 'Hl7.Msg.place_flat', 'Hl7.Msg.finish_flat', 'Hl7.Msg.C03_witness_drop', 'Hl7.Msg.C03_dropped_only_if_unplaceable', 'Hl7.Msg.place_dropped_unplaceable', 'Hl7.Casc.C03_parse_keeps_every_piece']
+MODULES = ['Hl7.Props.C08', 'Hl7.Props.C03Casc', 'Hl7.Props.C03Enc']
+THEOREMS = ['Hl7.Msg.C08_order', 'Hl7.Msg.C03_flat_keeps_all', 'Hl7.Msg.place_flat', 'Hl7.Msg.finish_flat', 'Hl7.Msg.C03_witness_drop', 'Hl7.Msg.C03_dropped_only_if_unplaceable', 'Hl7.Msg.place_dropped_unplaceable', 'Hl7.Casc.C03_parse_keeps_every_piece', 'Hl7.Casc.C03_encode_keeps_every_piece', 'Hl7.Casc.pos_pieces', 'Hl7.Casc.enc_parse_nil']
 DEF = '|^&~\\'
 
 
